@@ -14,10 +14,12 @@ SPEC = dict(
         "outside the two early exits (the text `read_parquet` anywhere; the header-only single-table fast path). The proof goes "
         "through the four regex passes in the order of the source (pass lemma + per-site lemmas H1-H4). The full statement is "
         "FALSE of the current source: one kernel-evaluated witness per excluded class (C16_comma_join_/distinct_from_/cte_shadow_/"
-        "cte_quoted_/rp_text_/fastpath_partial_/with_newline_/lateral_newline_/comment_last_byte_witness). "
-        "C16_cache_key: the transform-cache key does NOT determine (sql, header) (C16_cache_key_witness: header `prod`+S vs no "
-        "header + `prod:S`); C16_cache_key_partial proves injectivity among requests that all carry / all lack the header, "
-        "C16_cache_key_mixed characterises the remaining collisions exactly. C16_facts_tied re-checks on every run that the five "
+        "cte_quoted_/rp_text_/fastpath_partial_/fastpath_cr_/tablefunc_fast_/with_newline_/lateral_newline_/comment_last_byte_witness). "
+        "C16_cache_key (FULL, true since the fix /repo 12df811 `cacheKey := headerDB + NUL + sql`): the transform-cache key determines "
+        "(header, sql) for ALL pairs of requests the gate accepts - any SQL text, header absent or matching validIdentifierPattern "
+        "(hdrOK_noNul: such a header has no NUL; C16_cache_key_needs_header_gate shows the gate hypothesis is needed); the pre-fix "
+        "construction is kept as C16_cache_key_old_witness; the harness keeps the collision probe live as a regression monitor. "
+        "C16_facts_tied re-checks on every run that the five "
         "regex literals, skipPrefixes, fromKeywordFunctions, the sentinel, the cache-key construction, the fast-path literals and the "
         "ORDER and guards of the passes in convertSQLToStoragePaths[WithHeaderDB] are the ones the model was written for. "
         "NOT PROVED, only validated by the harness: that the token matchers of the model are what the regexes do on rendered "
@@ -26,7 +28,7 @@ SPEC = dict(
         "C16_same_rows) - exercised by running Arc's real query path and a plain DuckDB with one view per measurement on random "
         "datasets; that differential run is a search/validation, never a proof, and it finds two classes where DuckCompositional "
         "fails for Arc's replacement text (implicit table alias lost; name case)."),
-    level_note="proof (partial - substitution exactness on the regex path under an explicit carve-out; DuckDB compositionality assumed; 11 known-false input classes witnessed)",
+    level_note="proof (partial - substitution exactness on the regex path under an explicit carve-out; DuckDB compositionality assumed; cache-key clause full since 12df811; 11 known-false rewrite classes witnessed)",
     technique="Lean 4 proof over a token-level transcription of the regex rewrite (scan = leftmost non-overlapping matcher per pattern, CTE registry, masks, fast path, cache key); regenerated regex literals / pass order / cache-key construction; differential correspondence of the rewritten text and differential execution Arc-vs-DuckDB-with-views",
     factgen=True,
     hooks={"internal/api": "go/hooks/c16_api"},
